@@ -657,12 +657,49 @@ class HandledTable(Sub):
                 yield {"f": nme, "ltype": lt}
         for lt in R.GROUPS + R.ALGEBRAS:
             yield {"f": "<parameter_roundtrips>", "ltype": lt}
+        for lt in R.GROUPS + R.ALGEBRAS:
+            yield {"f": "<template_of_another_ltype>", "ltype": lt}
 
     def oracle(self, case, rec):
         nme, lt = case["f"], case["ltype"]
         rs = np.random.RandomState(dhash(nme + lt) % (2 ** 31))
         x = _rand_lie(lt, [2, 3, 2], rs, "float64")
         rec.nt((nme, lt))
+        if nme == "<template_of_another_ltype>":
+            # shape-only functions that take a SECOND tensor only as a shape / dtype template (expand_as, view_as, reshape_as, type_as,
+            # to(other)): the result is "a LieTensor of the same ltype holding exactly the selected items" - the ltype of the FIRST
+            # argument, whatever the template is (a LieTensor of another type with the same width, or of any type for to / type_as)
+            d = x.shape[-1]
+            others = [o for o in R.GROUPS + R.ALGEBRAS if o != lt and (R.GDIM[o] if o in R.GROUPS else R.ADIM[o]) == d]
+            anyo = [o for o in R.GROUPS + R.ALGEBRAS if o != lt]
+            x1 = _rand_lie(lt, [1, 3, 1], rs, "float64")
+            for o in others:
+                t = _rand_lie(o, [2, 3, 2], rs, "float64")
+                with rec.sut("expand_as / view_as / reshape_as with a %s template" % o):
+                    outs = {"expand_as": (x1.expand_as(t), x1.tensor().expand_as(t.tensor())), "view_as": (x.view_as(t), x.tensor()),
+                            "reshape_as": (x.reshape_as(t), x.tensor())}
+                from pypose.lietensor.lietensor import HANDLED_FUNCTIONS as _HF
+                for k, (y, want) in outs.items():
+                    if k not in _HF:
+                        rec.label("template:not_a_handled_function:" + k)      # outside the claim: plain tensors are fine
+                        continue
+                    rec.label("template:%s:%s<-%s" % (k, lt, o))
+                    rec.check(isinstance(y, pp.LieTensor) and y.ltype == tu.LT[lt] and torch.equal(y.tensor(), want), "template_ltype:" + k,
+                              "%s of a %s with a %s template: ltype %s (expected %s) / data %s" % (k, lt, o, getattr(y, "ltype", None), lt,
+                                                                                                "equal" if isinstance(y, torch.Tensor) and y.shape == want.shape and torch.equal(_t(y), want) else "differs"))
+            from pypose.lietensor.lietensor import HANDLED_FUNCTIONS as _HF2
+            for o in anyo[:3]:
+                t32 = _rand_lie(o, [2], rs, "float32")
+                with rec.sut("to / type_as with a %s template" % o):
+                    outs = {"to(other)": x.to(t32), "type_as": x.type_as(t32)}
+                for k, y in outs.items():
+                    if k.split("(")[0] not in _HF2:
+                        rec.label("template:not_a_handled_function:" + k)
+                        continue
+                    rec.label("template:%s:%s<-%s" % (k, lt, o))
+                    rec.check(isinstance(y, pp.LieTensor) and y.ltype == tu.LT[lt] and y.dtype == torch.float32 and torch.equal(y.tensor(), x.tensor().to(torch.float32)),
+                              "template_ltype:" + k, "%s of a %s with a float32 %s template: ltype %s dtype %s" % (k, lt, o, getattr(y, "ltype", None), getattr(y, "dtype", None)))
+            return
         if nme == "<parameter_roundtrips>":
             for xx, tag in ((x, ""), (_rand_lie(lt, [2, 0], rs, "float64"), "_empty")):
                 p = pp.Parameter(xx)
